@@ -188,7 +188,7 @@ CHECKS = {
              'grandchildren of shells are outside the property.',
         design='5/C19'),
     'C15': dict(
-        engine='spec/DirTree.tla, spec/DirTreeExport.tla',
+        engine='spec/DirTree.tla, spec/DirTreeExport.tla, spec/LoopTree.tla',
         technique='TLC model checking of two step machines (populating a directory from a FILE-LIST; the breadth-first '
                   'generator of -recursive with depth limits, pruning and selection) with the matchers as recursive '
                   'operators + replay of every enumerated FILE-LIST / tree x matcher through the real CLI',
@@ -245,7 +245,7 @@ CHECKS = {
              'earlier stdin parts) was found and repaired (fix: 0d09e39) and is kept as a deviation TLC must refute.',
         design='5/C10'),
     'C11': dict(
-        engine='spec/Settings.tla, spec/SettingsExport.tla',
+        engine='spec/Settings.tla, spec/SettingsExport.tla, spec/PathLookup.tla',
         technique='TLC model checking of an 11-action machine executing histories of env / cd / timeout / def instructions '
                   'interleaved with probes over the phases, against the reference semantics as folds + replay of every '
                   'history (and random longer ones from -simulate) with real probe processes through the real CLI',
